@@ -17,6 +17,8 @@ def ref_str(c, v):
         return '%0*d' % (c.get('field_length', 0), int(v))
     if t == 'datetime':
         return v.strftime(c.get('field_date_format', '%y%m%d'))
+    if t == 'decimal':
+        return format(decimal.Decimal(v), '0%df' % c.get('field_length', 0))
     return v
 
 
